@@ -259,5 +259,53 @@ ADDENDA = {
            'away (sorted(xs) as a statement) are reported in the universe/alpha/optimiser modules (and, under their own clauses, in broker, portcon, statistics, '
            'simulation, signals and rebalance code).',
 }
+ADDENDA45 = {
+    'C01': ' Rounds 4-5: the who-may-call rule is closed under the private steps of the allowed callers; refusals found as implicit look-up misses are not explicit '
+           'refusals; record-keeping rules say READ only where every call on the path was followed.',
+    'C02': ' Rounds 4-5: S3 follows the whole step when deletion hangs on a callee\'s answer; kept figures (a property that fills a slot of its object) must be dropped '
+           'by every method that changes an input - a sibling that does and one that does not is a contradiction; an update path on which every call was followed and '
+           'none marks a position is reported; marks may pass through the portfolio\'s own handler.',
+    'C03': ' Rounds 4-5: includes C02.S3; cache-aware (a kept figure is judged by its invalidation, path by path); re-marking may write fields the pinned tree does not '
+           'have; totals may range over the position keys.',
+    'C04': ' Rounds 4-5: S6 follows the exchange\'s own methods and the records they hand out (enum phases with match statements); a sort by direction applied per '
+           'portfolio inside the loop over the portfolios is reported; session cursors that re-seed themselves from the question are undecided.',
+    'C05': ' Rounds 4-5: quote side and consideration are read through enum members carrying data, Enum[name] look-ups (one path per member), named tuples built by '
+           'unpacking, round(x, None); a memoised quote must be keyed by everything it depends on.',
+    'C06': ' Rounds 4-5: the instant queried is classified (tz_convert same instant, floor never later, round/ceil may look ahead); positional look-ups (searchsorted '
+           'side, bisect) are decided; a bar handed out by fixed position must be established as not later than dt on that path; memo tables on helper objects '
+           '(one calendar per asset) are judged with the holder factored out; an open/close frame written out column by column is judged column by column; a function '
+           'defined in a loop and put away reads the loop variable when called.',
+    'C07': ' Rounds 4-5: a field passed as time argument (dt=self.current_dt) is read off the paths of the method as callers see it (decorators included) and off '
+           'records built on the path: it must hold the request\'s own time where the call is made.',
+    'C08': ' Rounds 4-5: the buy-and-hold instant is decided as an offset in days per weekday of the start whatever arithmetic computes it; the constructor keeps the '
+           'arguments it is given.',
+    'C09': ' Rounds 4-5: the asset list may be handed out as a tuple; orders appended in a loop whose body branches on the two quantities are decided as a table over '
+           '(target, current) in {-3,-1,0,2,5}^2; the sizers\' own state is scanned (a memo keyed by tuple(weights) holds the keys of the mapping only); array arithmetic '
+           'over all assets at once is not read element by element (undecided).',
+    'C10': ' Rounds 4-5: math.isclose(x, 0.0) has no absolute tolerance (reported), abs_tol=1e-8 is the numpy default; slot memos in the sizer are judged (an answer asked '
+           'of the broker under a key that records none of the broker\'s state and is never dropped is stale).',
+    'C11': ' Rounds 4-5: a formula written another way (magnitude sized, sign put back) is decided as a 56-point table over allocation x fee x price: a point that '
+           'deviates is the witness of a violation, agreement is recorded as undecided; a validating property setter is followed from the constructor; inputs of a slot '
+           'memo that sit behind a setter must be dropped by it.',
+    'C12': ' Rounds 4-5: stamps built as midnight-of-the-day + timedelta, combine(date, time), memoised stamps (key must identify year and day), schedules as data; a guard '
+           'on the ordering of the bounds computed from their distance (whole days, seconds) is decided at fractions of a day; "one convention refused, the other accepted" '
+           'only when uniform within each convention.',
+    'C13': ' Rounds 4-5: weekly instants by interval arithmetic over the path\'s own tests; process-wide schedule memos must be keyed by every field the schedule is '
+           'built from (C18.shared); frequencies dispatched through enums (aliases: equal values make one member), registries and match statements are read.',
+    'C14': ' Rounds 4-5: the equity point and the event-loop table are read off run() with its private steps followed, whatever they are called; cursors over the schedule '
+           'are undecided; method pull-ups into the broker base class keep their identity.',
+    'C15': ' Rounds 4-5: the clock rule (an accepted cash movement or fill moves the portfolio clock to its own time); wrappers that cannot be called by keyword are not '
+           'paths; known findings are matched by rule, entry and refusing site.',
+    'C16': ' Rounds 4-5: the event-loop table evaluates enum-driven predicates (any(...) over the members written out test by test); tables shared through a class body, '
+           'any()/all() over a generator of effectful calls, and a cached copy left behind by an in-place change of its source are reported; membership by bisect_left is '
+           'exclusive at the entry instant (reported).',
+    'C17': ' Rounds 4-5: label-only operations (.rename, .copy) are read through; an under-water indicator taken with isclose is reported.',
+    'C18': ' Rounds 4-5: memoisation by decorators of the package (closure tables) is judged like lru_cache plus "the key must tell instances apart"; process-wide memo '
+           'tables are judged field by field; keys that mention an argument only through a many-to-one computation are undecided (bisect boundaries against an inclusive '
+           'filter are reported); cursors that re-seed from the question are undecided; loops over a set that only file entries under the loop key are order-free; a '
+           'set iterated in a new function while the tabled iteration is gone is undecided.',
+    'C19': ' Rounds 4-5: every comprehension path of get_assets is judged; the equal-weight rule ignores the path of an optimiser built without a scale (scale is None); '
+           'class-level literals never assigned in the class family are read off self.',
+}
 for _pid, _m in PROPS.items():
-    _m['explanation'] = _m['explanation'] + ADDENDA.get(_pid, '') + COMMON_ADDENDUM
+    _m['explanation'] = _m['explanation'] + ADDENDA.get(_pid, '') + ADDENDA45.get(_pid, '') + COMMON_ADDENDUM
